@@ -356,7 +356,7 @@ theorem save_noTmp (sw : Bool) (fs : FS) (c : Content) (cls : Cls) (v : Nat) (h 
     NoTmp (saveFS ⟨.inPlace, sw⟩ fs c cls v) := by
   obtain ⟨d, p, q, pt, ct⟩ := fs
   cases c <;>
-    simp [NoTmp, saveFS, saveSteps, attempt, runSteps, Step.apply, FS.set, FS.get, FS.noFiles] at h ⊢ <;>
+    simp [NoTmp, saveFS, saveSteps, attempt, runSteps, Step.apply, FS.set, FS.noFiles] at h ⊢ <;>
     (repeat' split) <;> simp_all
 
 theorem crash_noTmp (sw : Bool) (fs : FS) (c : Content) (cls : Cls) (v k : Nat) (h : NoTmp fs) :
@@ -368,7 +368,7 @@ theorem crash_noTmp (sw : Bool) (fs : FS) (c : Content) (cls : Cls) (v k : Nat) 
   cases c <;>
     simp [saveSteps, attempt, prefixes] at hm <;>
     rcases hm with rfl | rfl | rfl | rfl | rfl | rfl | rfl <;>
-    simp_all [NoTmp, runSteps, Step.apply, FS.set, FS.get]
+    simp_all [NoTmp, runSteps, Step.apply, FS.set]
 
 theorem delete_noTmp (cfg : Cfg) (fs : FS) (h : NoTmp fs) : NoTmp (deleteFS cfg fs) := by
   obtain ⟨d, p, q, pt, ct⟩ := fs
